@@ -85,7 +85,7 @@ AllOps == {[op |-> "dec", arg |-> a] : a \in {"plain", "cast"}} \cup {[op |-> "s
           \cup {[op |-> "struct", arg |-> a] : a \in {"elems", "attrs"}}   \* Elements("doc") / Attributes("doc") of the leaf probe
           \cup {[op |-> "seqrt", arg |-> "plain"]}                         \* MapSeq.Xml() of NewMapXmlSeq(probe)
           \cup {[op |-> "json", arg |-> "plain"]}                          \* NewMapJson of a document with a non-canonical numeral
-          \cup {[op |-> "cast", arg |-> t] : t \in CastTexts}          \* NewMapXml(<r><c>t</c></r>, true): kind and token of the leaf
+          \cup {[op |-> "cast", arg |-> t] : t \in CastTexts}          \* NewMapXml(<r><c>t</c><c>t</c></r>, true): kind and token of both members of r.c
 Enabled(o, op) == CASE op.op \in {"seq", "enc", "cast", "seqrt"} -> CodecDomain(o)
                     [] op.op = "dec" -> CodecDomain(o) /\ (op.arg = "cast" => DefaultCastRegs(o))   \* (the decode specification models the default cast registers; the full chain is MxjCast)
                     [] OTHER -> TRUE
